@@ -251,6 +251,63 @@ def rule_linear_ctx(ctx):
                     f["sp"]["file"], f["sp"]["line"])
     else:
         res.inst("switch", f["sp"]["file"], f["sp"]["line"], "ok", "%d (environment, annotation) cases" % n)
+    # ---------------- literal / op / print: statements that bind one integer and go on ----------------
+    SOME = lambda x: Adt("core::option::Option", "Some", {"0": x})      # noqa: E731
+    simple = [
+        ("literal::Literal", lambda fv: {"lit": 5, "var": ident(9), "next": Sym("next"), "free_vars_next": SOME(SetVal(set(fv) | {9}))}, (), True),
+        ("op::Op", lambda fv: {"fst": ident(1), "op": Adt(AX + "statements::op::BinOp", "Sum", {}), "snd": ident(2), "var": ident(9), "next": Sym("next"),
+                               "free_vars_next": SOME(SetVal(set(fv) | {9}))}, (1, 2), True),
+        ("print::PrintI64", lambda fv: {"newline": True, "var": ident(1), "next": Sym("next"), "free_vars_next": SOME(SetVal(set(fv)))}, (1,), False),
+    ]
+    for form, mk, uses, binds in simple:
+        key = "<axcut::syntax::statements::%s as axcut::traits::linearize::Linearizing>::linearize" % form
+        f = fx.fn(key)
+        n, bad = 0, []
+        for clen in range(0, 5 if deep else 4):
+            for C in itertools.permutations((1, 2, 3, 4), clen):
+                if not set(uses) <= set(C):
+                    continue
+                for chis in ({}, {3: "Prd"}, {4: "Prd"}):
+                    for fv in itertools.chain.from_iterable(itertools.combinations((1, 2, 3, 4), k) for k in range(0, 4)):
+                        n += 1
+                        stmt = Adt(AX + "statements::" + form, form.split("::")[-1], mk(fv))
+                        outs, events = _run_events(ctx, key, stmt, tctx(C, chis))
+                        if len(outs) != 1:
+                            bad.append((C, fv, events[0][1] if events and events[0][0] == "panic" else "no result"))
+                            continue
+                        keep = set(fv) | set(uses)          # operands and the printed variable are read, not consumed
+                        lins = [e for e in events if e[0] == "linearize"]
+                        if len(lins) != 1 or lins[0][2] is None:
+                            bad.append((C, fv, "the rest of the program is not linearized exactly once"))
+                            continue
+                        nxt = lins[0][2]
+                        kept = nxt[:-1] if binds else nxt
+                        if binds and nxt[-1:] != [9]:
+                            bad.append((C, fv, "the rest is linearized in %s: the variable the statement binds must come last" % nxt))
+                            continue
+                        want = sorted(x for x in C if x in keep)
+                        if sorted(kept) != want or len(set(kept)) != len(kept):
+                            bad.append((C, fv, "the rest is linearized with %s, expected exactly the variables still needed %s" % (kept, want)))
+                            continue
+                        r = outs[0].result
+                        pairs = _subst_of(r)
+                        if pairs is None:
+                            # no substitution: the environment the backend has is the one the statement started in
+                            if list(C) != kept:
+                                bad.append((C, fv, "no substitution is inserted although the environment %s is not the one the rest is linearized in (%s): the "
+                                            "code generator keeps %s where the rest of the program expects %s" % (list(C), kept, list(C), kept)))
+                            continue
+                        news, olds = [p_[0] for p_ in pairs], [p_[1] for p_ in pairs]
+                        if news != kept or olds != kept:
+                            bad.append((C, fv, "the substitution binds %s := %s, expected the kept variables %s under their own names" % (news, olds, kept)))
+        ikey = form.split("::")[0]
+        if bad:
+            C, fv, msg = bad[0]
+            res.inst(ikey, f["sp"]["file"], f["sp"]["line"], "violation", "%d of %d" % (len(bad), n))
+            res.violate(ikey, "%s::linearize in environment %s with free variables %s of the rest: %s [%d of %d cases wrong]" % (form.split("::")[-1], list(C), sorted(fv), msg, len(bad), n),
+                        f["sp"]["file"], f["sp"]["line"])
+        else:
+            res.inst(ikey, f["sp"]["file"], f["sp"]["line"], "ok", "%d (environment, annotation) cases" % n)
     # ---------------- create ----------------
     key = "<axcut::syntax::statements::create::Create as axcut::traits::linearize::Linearizing>::linearize"
     f = fx.fn(key)
